@@ -87,6 +87,9 @@ ITEM_EXAMPLES = {"a-c": "b", "0-9": "1", "A-Z": "A", "!-,": "&", " -~": "~", "\\
 
 def example_of_atom(atom: str, rng: random.Random) -> str:
     """A string the atom is meant to match (a proposal only: the specification decides)."""
+    if atom == ".":
+        # what '.' must and must not consume, wherever it stands in the pattern
+        return rng.choice(["x", "x", "\r", "\n", "\u2028", "😀", " "])
     if atom in ATOM_EXAMPLES:
         return ATOM_EXAMPLES[atom]
     if atom.startswith("[") and atom.endswith("]"):
@@ -156,6 +159,12 @@ def run(chk: core.Check, tier: str, seed: int) -> None:
         directed.setdefault(pat, []).append(ex)
     patterns += list(directed)
     patterns += ["[\\].]", "[\\]a-c.]+", "[.\\]]", "[\\[.]", "[\\\\.]", "[\\].][.]", "[^\\].]", "[a\\]|.]"]
+    # '.' after / between / before classes and groups: its meaning does not depend on what came earlier in the pattern
+    dot_patterns = ["[ab].", "[^a].", "[a].[b]", "a[b]..", "(.[a]).", "[a]|.", ".[a].", "[a][b].", "[a]+.*", "([a]|b).", "[\\]].", "[a-c]{2}.", "\\p{L}.",
+                    "[.].", "a.", "(a).", "a|[b]."]
+    for dp in dot_patterns:
+        directed.setdefault(dp, []).extend(["a\r", "b\n", "a\rb", "ab\r", "ba\r\r", "a\u2028", "]\r", "aa\r", ".\r", "b\r"])
+    patterns += dot_patterns
     recs = []
     for p in patterns:
         if tier == "quick":
@@ -211,7 +220,7 @@ def run(chk: core.Check, tier: str, seed: int) -> None:
     chk.sample({"query": core.dec_text(recs[100]["q"]), "subjects": core.dec_value(recs[100]["doc"])["s"][:8], "locs": recs[100]["locs"]})
     chk.sample({"query": core.dec_text(recs[200]["q"]), "pattern": core.dec_value(recs[200]["doc"])["p"], "locs": recs[200]["locs"]})
     common.judge(chk, recs, "c11", what="Trace: match/search records vs IRegexp.tla",
-                 only=lambda c: c.startswith("C13 find") or not c.startswith(("C03", "C04", "C05", "C13")))
+                 only=lambda c: c.startswith(("C13 find", "C03")) or not c.startswith(("C03", "C04", "C05", "C13")))
     chk.rule = (
         f"{len(patterns)} patterns ({len(ATOMS)} atoms, atoms x quantifier forms, {len(INVALID)} invalid, {len(DONTCARE)} "
         f"don't-care, {n_rand} seeded patterns of depth<=3) x 14+ subjects each (fixed short subjects over the special "
